@@ -23,6 +23,7 @@ sys.path.insert(0, os.path.join(ROOT, "gen"))
 sys.path.insert(0, os.path.join(ROOT, "lib"))
 
 import facts  # noqa: E402
+sys.modules.setdefault("vcheck", sys.modules[__name__])
 sys.modules.setdefault("facts", facts)
 import props  # noqa: E402
 
@@ -369,6 +370,9 @@ class Check:
         with Lock("build"):
             self.step_facts()
             self.step_proofs()
+            for name in self.cfg.get("pre_build", []):
+                import prebuild
+                prebuild.STEPS[name](self)
             if self.cfg.get("harness", True):
                 self.build_harness()
         if self.cfg.get("harness", True):
